@@ -20,6 +20,7 @@ var kinds = map[string]kind{
 	"idem": {genIdem, runIdem},
 	"cons": {genCons, runCons},
 	"grp":  {genGrp, runGrp},
+	"cmt":  {genCmt, runCmt},
 }
 
 func TestMain(m *testing.M) {
